@@ -2,6 +2,7 @@ package symex
 
 import (
 	"fmt"
+	"strconv"
 	"go/constant"
 	"go/token"
 	"go/types"
@@ -613,6 +614,9 @@ func (e *Engine) strCode(s string) int {
 }
 
 func (e *Engine) strEq(a, b Str) *smt.Term {
+	if a.Fmt != nil || b.Fmt != nil {
+		return tmplEq(a, b)
+	}
 	if a.Code == nil && b.Code == nil {
 		return smt.BoolC(a.S == b.S)
 	}
@@ -937,4 +941,55 @@ func (e *Engine) typeAssert(f *frame, x *ssa.TypeAssert) (*frame, []*frame, []Ou
 	}
 	f.env[x] = res
 	return f, nil, nil
+}
+
+// tmplEq compares template strings (S with \x00 placeholders for decimal integers).
+func tmplEq(a, b Str) *smt.Term {
+	if a.Fmt != nil && b.Fmt != nil {
+		if a.S != b.S || len(a.Fmt) != len(b.Fmt) {
+			return smt.False // different shapes: different device files in every use made of this
+		}
+		r := smt.True
+		for i := range a.Fmt {
+			r = smt.And(r, smt.Eq(a.Fmt[i], b.Fmt[i]))
+		}
+		return r
+	}
+	t, c := a, b
+	if t.Fmt == nil {
+		t, c = b, a
+	}
+	if c.Code != nil || c.Num != nil || c.FNum != nil {
+		return smt.False
+	}
+	// concrete string against a template: match literal pieces, read the integers
+	pieces := strings.Split(t.S, "\x00")
+	rest := c.S
+	r := smt.True
+	for i, p := range pieces {
+		if !strings.HasPrefix(rest, p) {
+			return smt.False
+		}
+		rest = rest[len(p):]
+		if i == len(pieces)-1 {
+			break
+		}
+		j := 0
+		for j < len(rest) && rest[j] >= '0' && rest[j] <= '9' {
+			j++
+		}
+		if j == 0 {
+			return smt.False
+		}
+		n, err := strconv.ParseInt(rest[:j], 10, 64)
+		if err != nil {
+			return smt.False
+		}
+		r = smt.And(r, smt.Eq(t.Fmt[i], smt.IntC(n)))
+		rest = rest[j:]
+	}
+	if rest != "" {
+		return smt.False
+	}
+	return r
 }
